@@ -163,3 +163,77 @@ def attr_create(R, v):
             r = ('err', exc_code(e))
         orm.rollback()
     return r
+
+
+# ------------------------------------------------------------------------------------------------ assignments against objects in different prior states
+
+def state_scenarios():
+    """attribute -> (declaration, valid held value, invalid value written past the ORM, candidates to assign)."""
+    from pony import orm
+    D = Decimal
+    return {
+        'age':   ((orm.Required, int, (), {'min': 0, 'max': 150}), 30, -5, [30, 30.0, D(30), True, '30', -5, -5.0, 151, 31, 0, None]),
+        'level': ((orm.Optional, int, (), {'size': 8, 'unsigned': True}), 7, 256, [7, 7.0, 256, 256.0, 255, -1, 1, True]),
+        'ratio': ((orm.Optional, float, (), {'max': 1.0}), 0.5, 1.5, [0.5, D('0.5'), 1, 1.5, D('1.5'), 2, 1.0]),
+        'name':  ((orm.Required, str, (), {}), 'ann', '', ['ann', '', ' ', 'bob', 5, None]),
+        'code':  ((orm.Optional, str, (3,), {}), 'abc', 'abcdef', ['abc', 'abcdef', 'abcd', 'ab', ' abc ']),
+        'price': ((orm.Optional, Decimal, (10, 2), {'min': 0}), D('1.50'), D('-1'), [D('1.50'), D('1.5'), D('-1'), -1, D('-1.00'), D('0'), 3]),
+    }
+
+
+def outcome(fn):
+    try:
+        v = fn()
+    except Exception as e:
+        return ('err', exc_code(e))
+    return ('ok', type(v).__name__, repr(v))
+
+
+def run_state_assignments():
+    """-> list of {attr, state, held, value, assign: outcome, validate: outcome of the stateless attr.validate(value)}.
+    States: 'created' (object made in this session, holds the valid value), 'loaded' (committed, read in a new session),
+    'raw-invalid' (row written by raw SQL with a value violating the declaration, then loaded), 'created-other' (holds an unrelated
+    valid value: the reference state)."""
+    from pony import orm
+    sc = state_scenarios()
+    db = orm.Database('sqlite', ':memory:')
+    ns = {n: d[0](d[1], *d[2], **d[3]) for n, (d, held, bad, cands) in sc.items()}
+    S = type('S', (db.Entity,), ns)
+    db.generate_mapping(create_tables=True)
+    valid = {n: held for n, (d, held, bad, cands) in sc.items()}
+    out = []
+    with orm.db_session:
+        o = S(**valid); orm.commit(); oid = o.id
+    # rows written past the ORM: one per attribute, only that attribute invalid
+    bad_ids = {}
+    with orm.db_session:
+        for n, (d, held, bad, cands) in sc.items():
+            cols = dict(valid); cols[n] = bad
+            names = sorted(cols)
+            vals = [str(cols[k]) if isinstance(cols[k], Decimal) else cols[k] for k in names]
+            db.execute('insert into S (%s) values (%s)' % (', '.join(names), ', '.join('$v%d' % i for i in range(len(names)))),
+                       {'v%d' % i: v for i, v in enumerate(vals)})
+            bad_ids[n] = db.select('select max(id) from S')[0]
+        orm.commit()
+    def record(n, state, obj, held):
+        attr = getattr(S, n)
+        for v in sc[n][3]:
+            a = outcome(lambda: (setattr(obj, n, v), getattr(obj, n))[1])
+            ref = outcome(lambda: attr.validate(v))
+            out.append({'attr': n, 'state': state, 'held': repr(held), 'value': repr(v), 'assign': a, 'validate': ref})
+            try: setattr(obj, n, held) if state != 'raw-invalid' else obj._vals_.__setitem__(attr, held)
+            except Exception: pass
+    for n, (d, held, bad, cands) in sc.items():
+        with orm.db_session:
+            obj = S(**valid); record(n, 'created', obj, held); orm.rollback()
+        with orm.db_session:
+            obj = S[oid]; obj.load(); record(n, 'loaded', obj, held); orm.rollback()
+        with orm.db_session:
+            import warnings
+            with warnings.catch_warnings():
+                warnings.simplefilter('ignore')
+                obj = S[bad_ids[n]]; obj.load()
+                got = obj._vals_.get(getattr(S, n))
+                record(n, 'raw-invalid', obj, got)
+            orm.rollback()
+    return out, {n: (getattr(S, n).converters[0]) for n in sc}
